@@ -42,6 +42,11 @@ pub const KINDS: &[&str] = &[
     "{n} INPUT Z$ : DIM M(3)\r",    // CR ending
     "{n} 1.2.3",                    // invalid number
     "{n} PRINT %",                  // illegal ASCII character
+    "{n} PRINT \"é\" ñ",            // illegal multi-byte character after multi-byte text
+    "{n} PRINT \"ñ\";%é",           // illegal ASCII character followed by a multi-byte one
+    "{n} DATA ça, là: 😊",          // illegal 4-byte character after DATA with multi-byte items
+    "\t",                           // tab only
+    "{n} X = \"😀\" : Y = 😀",      // 4-byte characters inside and outside a string
 ];
 
 fn plan(tier: Tier) -> Vec<Workload> {
